@@ -166,6 +166,9 @@ struct FCase {
     }
 };
 
+// witness built only when a check fails (JSON construction is the dominant per-check cost under ASan)
+struct LazyWit { const FCase* k; Json get() const { return k->witness(); } };
+
 // =========================================================================== Gravity
 struct GravityElem : Elem {
     Force::Gravity g; UnitVec3 d; double mag = 0, hz = 0; std::vector<char> excl; int ctor = 0;
@@ -212,8 +215,8 @@ struct GravityElem : Elem {
         }
     }
     void checkGetters(Ctx& c, FCase& k, const State& s, const Ref& R, const std::string& tail) override {
-        Json wit = k.witness();
-        auto W = [&](const char* what) { return [=]() { return Json(wit).set("what", what); }; };
+        LazyWit wit{&k};
+        auto W = [&](const char* what) { return [=]() { return wit.get().set("what", what); }; };
         const Vector_<SpatialVec>& F = g.getBodyForces(s);
         double dF = 0, d1 = 0; for (int b = 0; b < k.nb; ++b) { dF = std::max(dF, spMax(F[b] - R.F[b])); d1 = std::max(d1, spMax(g.getBodyForce(s, MobilizedBodyIndex(b)) - R.F[b])); }
         c.require("getter:Gravity:getBodyForces-size" + tail, F.size() == k.nb, W("getBodyForces() does not have one entry per mobilized body"));
@@ -242,7 +245,7 @@ struct UniformGravityElem : Elem {
     }
     void setRegime() { regime = std::string(gv.norm() == 0 ? "g0" : std::fabs(gv.norm() - 1) < 1e-12 ? "g1" : "g") + (zh != 0 ? "/hz" : "/hz0"); }
     // the zero-height clause gets one key of its own whatever the route / preceding operation
-    std::string peKey() override { return zh != 0 ? "law:UniformGravity:pe-zeroHeight" : ""; }
+    std::string peKey() override { return zh != 0 ? "zero-height:UniformGravity:pe" : ""; }
     void ref(FCase& k, const State& s, Ref& R) override {
         double mag = gv.norm();
         for (int b = 1; b < k.nb; ++b) {
@@ -266,8 +269,8 @@ struct UniformGravityElem : Elem {
         return n;
     }
     void checkGetters(Ctx& c, FCase& k, const State&, const Ref&, const std::string& tail) override {
-        Json wit = k.witness();
-        c.check("getter:UniformGravity:parameters" + tail, std::max((ug.getGravity() - gv).norm(), std::fabs(ug.getZeroHeight() - zh)), 0.0, [=]() { return Json(wit).set("what", "getGravity()/getZeroHeight() do not return what was set"); });
+        LazyWit wit{&k};
+        c.check("getter:UniformGravity:parameters" + tail, std::max((ug.getGravity() - gv).norm(), std::fabs(ug.getZeroHeight() - zh)), 0.0, [=]() { return wit.get().set("what", "getGravity()/getZeroHeight() do not return what was set"); });
     }
     Json describe() override { return Json::obj().set("g", jV3(gv)).set("zeroHeight", zh); }
 };
@@ -387,12 +390,12 @@ struct MobilityElem : Elem {
         ff = r.sym(30); di.setMobilityForce(s, ff); return "setMobilityForce";
     }
     void checkGetters(Ctx& c, FCase& k, const State& s, const Ref&, const std::string& tail) override {
-        Json wit = k.witness(); double d = 0;
+        LazyWit wit{&k}; double d = 0;
         if (kind == 0) d = std::max(std::fabs(sp.getStiffness(s) - kk), std::fabs(sp.getQZero(s) - q0));
         else if (kind == 1) d = std::fabs(da.getDamping(s) - cc);
         else if (kind == 2) d = std::fabs(co.getForce(s) - ff);
         else d = std::fabs(di.getMobilityForce(s) - ff);
-        c.check("getter:" + name + ":parameters" + tail, d, 0.0, [=]() { return Json(wit).set("what", "state-level parameter getter does not return what was set"); });
+        c.check("getter:" + name + ":parameters" + tail, d, 0.0, [=]() { return wit.get().set("what", "state-level parameter getter does not return what was set"); });
     }
     Json describe() override { return Json::obj().set("body", body).set("which", which).set("k", kk).set("q0", q0).set("c", cc).set("f", ff); }
 };
@@ -448,9 +451,9 @@ struct StopElem : Elem {
         st.setMaterialProperties(s, kk, dd); return "setMaterialProperties";
     }
     void checkGetters(Ctx& c, FCase& k, const State& s, const Ref&, const std::string& tail) override {
-        Json wit = k.witness();
+        LazyWit wit{&k};
         bool ok = st.getLowerBound(s) == lo && st.getUpperBound(s) == hi && st.getStiffness(s) == kk && st.getDissipation(s) == dd;
-        c.require("getter:MobilityLinearStop:parameters" + tail, ok, [=]() { return Json(wit).set("what", "state-level parameter getters do not return what was set"); });
+        c.require("getter:MobilityLinearStop:parameters" + tail, ok, [=]() { return wit.get().set("what", "state-level parameter getters do not return what was set"); });
     }
     Json describe() override { return Json::obj().set("body", body).set("which", which).set("k", kk).set("d", dd).set("qLow", lo).set("qHigh", hi); }
 };
@@ -528,8 +531,8 @@ struct BushingElem : Elem {
         XM = randFrame(r, r.integer(0, 2)); bu.setFrameOnBody2(s, XM); return "setFrameOnBody2";
     }
     void checkGetters(Ctx& c, FCase& k, const State& s, const Ref& R, const std::string& tail) override {
-        Json wit = k.witness();
-        auto W = [&](const char* what) { return [=]() { return Json(wit).set("what", what); }; };
+        LazyWit wit{&k};
+        auto W = [&](const char* what) { return [=]() { return wit.get().set("what", what); }; };
         Kin K = kin(k, s, true);
         Vec6 q = bu.getQ(s), qd = bu.getQDot(s), f = bu.getF(s);
         double dq = 0, dqd = 0, df = 0, sq = 1, sqd = 1, sf = 1e-300;
@@ -593,12 +596,12 @@ struct DiscreteElem : Elem {
         }
     }
     void checkGetters(Ctx& c, FCase& k, const State& s, const Ref& R, const std::string& tail) override {
-        Json wit = k.witness(); double d = 0;
+        LazyWit wit{&k}; double d = 0;
         for (int b = 0; b < k.nb; ++b) d = std::max(d, spMax(df.getOneBodyForce(s, k.mob(b)) - R.F[b]));
         for (int b = 1; b < k.nb; ++b) for (int w = 0; w < k.mob(b).getNumU(s); ++w) d = std::max(d, std::fabs(df.getOneMobilityForce(s, k.mob(b), MobilizerUIndex(w)) - R.f[k.mob(b).getFirstUIndex(s) + w]));
         bool sz = (df.getAllMobilityForces(s).size() == (haveF ? k.nu : 0)) && (df.getAllBodyForces(s).size() == (haveB ? k.nb : 0));
-        c.check("getter:DiscreteForces:getOne" + tail, d, E1 * R.scale, [=]() { return Json(wit).set("what", "getOneBodyForce()/getOneMobilityForce() != what was set"); });
-        c.require("getter:DiscreteForces:getAll-size" + tail, sz, [=]() { return Json(wit).set("what", "getAll*Forces() size is neither 0 (nothing applied) nor the documented full length"); });
+        c.check("getter:DiscreteForces:getOne" + tail, d, E1 * R.scale, [=]() { return wit.get().set("what", "getOneBodyForce()/getOneMobilityForce() != what was set"); });
+        c.require("getter:DiscreteForces:getAll-size" + tail, sz, [=]() { return wit.get().set("what", "getAll*Forces() size is neither 0 (nothing applied) nor the documented full length"); });
     }
     Json describe() override { return Json::obj().set("haveMobility", haveF).set("haveBody", haveB); }
 };
